@@ -116,7 +116,7 @@ func (cce *staleIfErrorPolicy) CanStaleOnError(
 		if !valid {
 			continue
 		}
-		age := freshness.Age.Value + cce.clock.Since(freshness.Age.Timestamp)
+		age := AddAge(freshness.Age.Value, max(cce.clock.Since(freshness.Age.Timestamp), 0))
 		// If stale-if-error is set, allow extra staleness
 		if age <= freshness.UsefulLife+dur {
 			return true
